@@ -9,6 +9,7 @@ Exit-code discipline (DESIGN.md §5):
 import json, os, sys, time, traceback, hashlib
 
 VERIF = os.path.dirname(os.path.dirname(os.path.abspath(__file__)))
+REPLAYS = os.environ.get("VERIF_REPLAY_DIR") or os.path.join(VERIF, "replays")   # scratch runs (self-test, seeds on a copy) keep their replays apart
 REPO = os.environ.get("VERIF_REPO", "/repo")
 if REPO not in sys.path:
     sys.path.insert(0, REPO)
@@ -92,7 +93,7 @@ class Run:
         self.canaries_total = 0
         self.bounded_notes = []
         import shutil
-        shutil.rmtree(os.path.join(VERIF, "replays", prop_id), ignore_errors=True)   # replays belong to one run
+        shutil.rmtree(os.path.join(REPLAYS, prop_id), ignore_errors=True)   # replays belong to one run
 
     # ---- recording -------------------------------------------------------------------------
     def add(self, name, status, backend="z3", time_s=0.0, config=None, detail=None, clause=None, bounded=False):
@@ -142,10 +143,10 @@ class Run:
             if k["key"] == key:
                 self.known_hits.append((k, text))
                 return None
-        os.makedirs(os.path.join(VERIF, "replays", self.prop_id), exist_ok=True)
+        os.makedirs(os.path.join(REPLAYS, self.prop_id), exist_ok=True)
         fn = hashlib.sha1(obligation.encode()).hexdigest()[:10]
         safe = "".join(c if c.isalnum() or c in "._-" else "_" for c in obligation)[:80]
-        path = os.path.join(VERIF, "replays", self.prop_id, f"{safe}.{fn}.json")
+        path = os.path.join(REPLAYS, self.prop_id, f"{safe}.{fn}.json")
         replay_obj = dict(replay_obj)
         replay_obj.update({"property": self.prop_id, "obligation": obligation, "key": key, "text": text,
                            "confirmed_on_real_code": bool(confirmed)})
